@@ -1,10 +1,104 @@
 /-
   Driver ops for C05.
+    clonesub : {value, key, with, impl, implChanged} → "agree" | "differ …"
+      `batch.cloneSub` against `Model/Batch.lean`.  Go iterates a map in the record case, so which of several
+      fields bearing the variable is replaced is not determined: the op accepts any member of the set of outcomes
+      the model can produce under some iteration order (`cloneSubAll`); where every record has at most one bearing
+      field that set is the singleton `{cloneSub …}` and the comparison is exact.
+    batch    : {policies, env (template + store), orders: [[ [name, [values…]] … ] …], impl} → "agree" | "differ …"
+      the whole enumeration (`batchAuthorize`: staged partial evaluation, substitution, final authorization) for each
+      candidate variable order (batch sorts by list length; ties are unspecified); agrees if the implementation's
+      canonical result multiset equals the model's for one of the orders.
 -/
 import CedarGo.Driver.Ops.Core
+import CedarGo.Model.Batch
 namespace CedarGo.Driver
 open Lean CedarGo
 
-def c05Ops : List (String × Handler) := []
+/-- all outcomes of `cloneSub` over all iteration orders of the records involved -/
+partial def cloneSubAll (k : String) (v : Value) : Value → List (Value × Bool)
+  | .entity ty id => if ty == variableEntityType && id == k then [(v, true)] else [(.entity ty id, false)]
+  | .record kvs =>
+    -- any field that can change may be "the first one"
+    let cands := (List.range kvs.length).flatMap fun i =>
+      match kvs[i]? with
+      | none => []
+      | some (kk, vv) =>
+        ((cloneSubAll k v vv).filter (·.2)).map fun (vv', _) =>
+          (Value.record (kvs.take i ++ [(kk, vv')] ++ kvs.drop (i + 1)), true)
+    if cands.isEmpty then [(.record kvs, false)] else cands
+  | .set xs =>
+    let outs := xs.map (cloneSubAll k v)
+    if outs.any (fun os => os.any (·.2)) then
+      -- every member is rewritten; a member with several outcomes multiplies the possibilities
+      let combos := outs.foldr (fun os acc => os.flatMap fun o => acc.map (o.1 :: ·)) [[]]
+      combos.map fun ms => (mkSet ms, true)
+    else [(.set xs, false)]
+  | x => [(x, false)]
+
+def opCloneSub : Handler := fun _ j => do
+  let r ← decValue (← field j "value")
+  let k ← jHex (← field j "key")
+  let v ← decValue (← field j "with")
+  let impl ← decValue (← field j "impl")
+  let implChanged ← jBool (← field j "implChanged")
+  let m := cloneSub k v r
+  let implS := showValue impl
+  if r.oneBearing k then
+    if showValue m.1 == implS && m.2 == implChanged then .ok "agree"
+    else .ok s!"differ (exact) model={showValue m.1},{m.2} impl={implS},{implChanged}"
+  else
+    let all := cloneSubAll k v r
+    if all.any (fun o => showValue o.1 == implS && o.2 == implChanged) then .ok "agree"
+    else .ok s!"differ (no iteration order gives it) model={showValue m.1},{m.2} impl={implS},{implChanged}"
+
+def showVals (vals : List (String × Value)) : String :=
+  ";".intercalate (sortDedup (vals.map fun kv => s!"{hex kv.1}={showValue kv.2}"))
+
+def showBResult (r : BResult) : String :=
+  let reasons := sortDedup (r.reasons.map fun (i, _) => hex i)
+  let errors := sortDedup (r.errors.map fun (i, _, _) => hex i)
+  s!"{showVals r.values}|{showValue r.principal}|{showValue r.action}|{showValue r.resource}|{showValue r.context}|"
+    ++ (if r.allow then "allow" else "deny") ++ "|" ++ ",".intercalate reasons ++ "|" ++ ",".intercalate errors
+
+/-- sorted with multiplicity (the callback multiset) -/
+def insertSortedDup (s : String) : List String → List String
+  | [] => [s]
+  | x :: xs => if s ≤ x then s :: x :: xs else x :: insertSortedDup s xs
+
+def showRun (r : BRun Unit) : String :=
+  let (calls, tail) := match r with
+    | .ok calls => (calls, "")
+    | .error (.cancelled, calls) => (calls, " ERR cancelled")
+    | .error (.invalidPart, calls) => (calls, " ERR invalid-part")
+    | .error (.callback _, calls) => (calls, " ERR callback")
+  " ## ".intercalate ((calls.map showBResult).foldl (fun acc s => insertSortedDup s acc) []) ++ tail
+
+def decVars (j : Json) : D (List (String × List Value)) := do
+  (← jArr j).mapM fun kv => do
+    match ← jArr kv with
+    | [k, vs] => .ok ((← jHex k), (← (← jArr vs).mapM decValue))
+    | _ => .error "bad variable entry"
+
+/-- the store comes from `envref` (or a whole `env`); `parts`, when present, overrides the four request parts -/
+def getEnvParts (envs : Envs) (j : Json) : D Env := do
+  let env ← getEnv envs j
+  match j.getObjVal? "parts" with
+  | .ok p =>
+    .ok { env with
+      principal := ← decValue (← field p "principal"), action := ← decValue (← field p "action"),
+      resource := ← decValue (← field p "resource"), context := ← decValue (← field p "context") }
+  | .error _ => .ok env
+
+def opBatch : Handler := fun envs j => do
+  let ps ← decPolicies (← field j "policies")
+  let env ← getEnvParts envs j
+  let orders ← (← jArr (← field j "orders")).mapM decVars
+  let impl ← jStr (← field j "impl")
+  let outs := orders.map fun vars => showRun (batchAuthorize (fun _ => false) (fun _ => .ok ()) vars env ps)
+  if outs.any (· == impl) then .ok "agree"
+  else .ok s!"differ model={outs.headD "<no order>"} impl={impl}"
+
+def c05Ops : List (String × Handler) := [("clonesub", opCloneSub), ("batch", opBatch)]
 
 end CedarGo.Driver
